@@ -44,6 +44,11 @@ impl SDJWTHolder {
     /// * `InvalidState` - If the SD JWT data is not valid
     /// * `DeserializationError` - If the SD JWT serialization is not valid
     pub fn new(sd_jwt_with_disclosures: String, serialization_format: SDJWTSerializationFormat) -> Result<Self> {
+        #[cfg(sdjwt_verif)]
+        let verif_call = crate::verif_trace::begin(
+            "holder.new",
+            serde_json::json!({"input": sd_jwt_with_disclosures, "format": serialization_format.to_string()}),
+        );
         let mut holder = SDJWTHolder {
             sd_jwt_engine: SDJWTCommon {
                 serialization_format,
@@ -77,6 +82,8 @@ impl SDJWTHolder {
 
         holder.sd_jwt_engine.create_hash_mappings()?;
 
+        #[cfg(sdjwt_verif)]
+        crate::verif_trace::end(verif_call, "holder.new", serde_json::json!(null));
         Ok(holder)
     }
 
@@ -99,6 +106,18 @@ impl SDJWTHolder {
         holder_key: Option<EncodingKey>,
         sign_alg: Option<String>,
     ) -> Result<String> {
+        #[cfg(sdjwt_verif)]
+        let verif_call = crate::verif_trace::begin(
+            "holder.present",
+            serde_json::json!({
+                "selection": claims_to_disclose,
+                "nonce": nonce,
+                "aud": aud,
+                "has_key": holder_key.is_some(),
+                "sign_alg": sign_alg,
+                "format": self.sd_jwt_engine.serialization_format.to_string(),
+            }),
+        );
         self.key_binding_jwt_header = Default::default();
         self.key_binding_jwt_payload = Default::default();
         self.serialized_key_binding_jwt = Default::default();
@@ -136,6 +155,8 @@ impl SDJWTHolder {
                 .map_err(|e| Error::DeserializationError(e.to_string()))?
         };
 
+        #[cfg(sdjwt_verif)]
+        crate::verif_trace::end(verif_call, "holder.present", serde_json::json!(sd_jwt_presentation));
         Ok(sd_jwt_presentation)
     }
 
